@@ -18,6 +18,13 @@ ANCHORS = [
     'field.Field.array.setter',
 ]   # functions whose code the property is anchored in (mutation analysis, evidence)
 
+AUTOMUT_TRIAGE = [
+    (r"dims\.setter$", r"comparator LtE->Lt", "equivalent for the invariants: a 3-d region then gets x0, x1, x2 - still unique and of the right count"),
+    (r"Field\.__init__$", r"self\.valid = True", "equivalent: placeholder needed by the norm setter, overwritten by `self.valid = valid` two lines later"),
+    (r"Field\.rotate90$", r"drop keyword inplace=", "equivalent: inplace=False is Mesh.rotate90's default"),
+    (r"array\.setter$", r"drop keyword dtype=", "the dtype of the stored array is C02's subject (C02.D9 reports it); shape and ownership are unaffected"),
+]
+
 
 def run(chk):
     geom.table_exhaustive(chk, "C13")
@@ -28,6 +35,15 @@ def run(chk):
     geom.field_rotate_siblings(chk, "C13")
     geom.raise_after_effect(chk, "C13")
     geom.api_purity(chk, "C13")
+    geom.refusal_table(chk, "C13")
+    geom.defaults_table(chk, "C13")
+    # "rotation as in C12": the rotation rules of C12 (same rule instances), and the mesh constructor's dispatch (C01)
+    from . import c12, c01
+    c12.d1_region_sense(chk, chk.repo)
+    c12.d1_field_sense(chk, chk.repo)
+    c12.d2_units(chk, chk.repo)
+    c01.d10_argument_dispatch(chk, chk.repo)
+    c01.d11_region_constructions(chk, chk.repo)
     chk.assume("invariants after sequences follow by induction from per-step preservation, which is what is decided; "
                "floating-point equality of in-place and copy results is not decided")
     chk.trust("np.minimum/np.maximum are element-wise min/max; np.add/np.subtract element-wise (numpy reference)")
